@@ -861,6 +861,20 @@ def replay_batched_px():
     return bool(np.max(np.abs(S - exact)) > 1e-3)
 
 
+def replay_trunc_far_tail():
+    """recorded input of known finding `hetero-trunc-far-tail` (the instance generated at VERIF_SEED = 11): rectified-linear
+    unit with offset -0.35 and input weight -0.013: h >= 0 lies ~33 standard deviations of h above its mean; E[ln p(y|x)] is
+    an ordinary number (the unit is switched off), the bound is NaN"""
+    import jax.numpy as jnp
+    from gaussian_toolbox import approximate_conditional as ac, pdf
+    J = jnp.asarray
+    c = ac.HeteroscedasticReLUConditional(M=J([[[1.674240068669946]]]), b=J([[0.6082512230436107]]), A=J([[[-1.0866229700934324]]]),
+                                          W=J([[-0.35205453374754403, -0.01281605681404392]]))
+    p = pdf.GaussianPDF(Sigma=J([[[0.7013700913099427]]]), mu=J([[0.6889949767547318]]))
+    v = np.asarray(c.integrate_log_conditional_y(p, y=J([[0.3990203588219495]])))
+    return bool(not np.all(np.isfinite(v)))
+
+
 def replay_trunc_degenerate():
     """[hetero-trunc] minimal inputs of the finding `hetero-trunc-degenerate`: zero input weights (both classes) and,
     for Dx = 2, w parallel to M'a (mean and noise driven by the same input); the exact values are finite"""
